@@ -22,7 +22,7 @@ func init() {
 			"(d) on the non-protecting branch the bytes signed are HashTreeRoot(SigningData{ObjectRoot: root, Domain: domain}) of the helper's own parameters; " +
 			"(e) batch results are parallel to the accounts they were requested for through the split by account kind (index-space analysis, and the result space of every batch method is its accounts parameter); " +
 			"(f) len(accounts) == len(roots) is established before the second is indexed by the first's index. " +
-			"Added with the fourth seeding round: (g) slices the callee co-indexes are handed over cut the same way. Added with the fifth seeding round: (x) the cross-cutting rules inside the signer: a result variable shadowed in a nested scope, then used outside it. Added with the sixth seeding round and the false-alarm regression: (x) no slice parameter is sorted in place in the signer. Added with the seventh seeding round: (k) the groups a batch is split into are signed independently (the second group's test is reached whether or not the first group was empty); (y) C05.k is taken over. NOT decided: BLS verification, SSZ merkleisation (library), behaviour of Dirk's multi-signer.",
+			"Added with the fourth seeding round: (g) slices the callee co-indexes are handed over cut the same way. Added with the fifth seeding round: (x) the cross-cutting rules inside the signer: a result variable shadowed in a nested scope, then used outside it. Added with the sixth seeding round and the false-alarm regression: (x) no slice parameter is sorted in place in the signer. Added with the seventh seeding round: (k) the groups a batch is split into are signed independently (the second group's test is reached whether or not the first group was empty); (y) C05.k is taken over. Added with the tenth seeding round: (l) nothing is kept between calls: the signer's Service has no field of domain type, and no signing root is taken out of a map. NOT decided: BLS verification, SSZ merkleisation (library), behaviour of Dirk's multi-signer.",
 		Technique: "table agreement against the specification (field -> spec key in New composed with method -> field), provenance of call arguments and composite-literal fields by parameter name, index-space analysis with verified result summaries, guard/edge-deletion for nil and length tests",
 		Rule:      "obligations per signing method (a,b,c), per signing helper (d,f), per function with indexed accesses and per batch method (e)",
 	})
@@ -359,7 +359,8 @@ func runC06(p *core.Prog, r *core.Report, tier string) {
 			if st, ok := tn.Type().Underlying().(*types.Struct); ok {
 				for i := 0; i < st.NumFields(); i++ {
 					ft := strings.TrimPrefix(st.Field(i).Type().String(), "*")
-					if strings.HasSuffix(ft, "phase0.Domain") {
+					// one remembered domain (a map keyed by what the domain depends on would be another matter)
+					if strings.HasSuffix(ft, "/phase0.Domain") && !strings.ContainsAny(ft, "[]") {
 						nKept++
 						r.Violate("C06.l", "Service."+st.Field(i).Name()+"|no-domain-kept-between-calls", p.Pos(st.Field(i).Pos()), "the signer's Service keeps a signature domain in the field "+st.Field(i).Name()+": a request for an epoch on the other side of a fork from the one it was fetched for is signed under the wrong domain")
 					}
